@@ -219,7 +219,7 @@ class BaseOdeModel(object):
                 elif isinstance(parameters[0], Number):
                     for i, pi in enumerate(parameters):
                         if isinstance(self._paramList[i], ODEVariable):
-                            param_out[str(self._paramList[i])] = pi
+                            param_out[self._paramList[i].ID] = pi
                         else:
                             param_out[self._paramList[i]] = pi
                 else:
